@@ -18,9 +18,9 @@ type tmGen struct {
 	ctr    int
 	ver    uint64
 	chain  string
-	height int64  // tracked height as the generator believes it
+	height int64   // tracked height as the generator believes it
 	cur    []tmVal // validator set the tracked next-hash stands for
-	curTag string // "L" or "N": which hash of cur is tracked
+	curTag string  // "L" or "N": which hash of cur is tracked
 }
 
 func (g *tmGen) heimdall() bool { return g.rn == "heimdall" }
